@@ -130,6 +130,27 @@ int main(int argc, char **argv)
 		for (size_t i = 0; i < n2; i++) for (int b = 0; b < 8; b += 7) { c2[i] ^= (uint8_t)(1 << b); cq = c2; ql = n2; snprintf(nm, sizeof nm, "privatekeyinfo_flip:%zu.%d", i, b);
 			cap_begin(); rc = sm2_private_key_info_from_der(&kr, &at, &al, &cq, &ql); secret(d, 32); if (o2) secret(o2, 32); cap_end(nm, 0, rc); c2[i] ^= (uint8_t)(1 << b); }
 	}
+	// ---- plain (unencrypted) private-key PEM files, in the forms a reader meets: as the library writes them, and a PrivateKeyInfo that carries the optional
+	// attributes field (accepted with a warning): the scalar stays off fd 1/2 on all of them ----
+	{
+		uint8_t pki[512], pk2[600]; size_t pl = 0, l3; uint8_t *q = pki; SM2_KEY kr; FILE *f; const uint8_t *cq; const uint8_t *at; size_t al;
+		sm2_private_key_info_to_der(&key, &q, &pl);
+		// append [0] IMPLICIT SET OF Attribute { commonName = "hi" } and re-encode the outer SEQUENCE (content < 256 bytes: 30 81 xx)
+		static const uint8_t attrs[] = { 0xa0, 0x0d, 0x30, 0x0b, 0x06, 0x03, 0x55, 0x04, 0x03, 0x31, 0x04, 0x0c, 0x02, 'h', 'i' };
+		{ size_t hdr = (pki[1] & 0x80) ? 2 + (size_t)(pki[1] & 0x7f) : 2, clen = pl - hdr + sizeof attrs; pk2[0] = 0x30; pk2[1] = 0x81; pk2[2] = (uint8_t)clen; memcpy(pk2 + 3, pki + hdr, pl - hdr); memcpy(pk2 + 3 + pl - hdr, attrs, sizeof attrs); l3 = 3 + clen; }
+		f = fopen("/tmp/leak_plain.pem", "w"); sm2_private_key_info_to_pem(&key, f); fclose(f);
+		f = fopen("/tmp/leak_plain.pem", "r"); cap_begin(); rc = sm2_private_key_info_from_pem(&kr, f); secret(d, 32); cap_end("privatekeyinfo_from_pem", 0, rc); fclose(f);
+		f = fopen("/tmp/leak_attrs.pem", "w"); pem_write(f, "PRIVATE KEY", pk2, l3); fclose(f);
+		f = fopen("/tmp/leak_attrs.pem", "r"); cap_begin(); rc = sm2_private_key_info_from_pem(&kr, f); secret(d, 32); cap_end("privatekeyinfo_from_pem_with_attributes", 0, rc); fclose(f);
+		cq = pk2; size_t ql = l3; cap_begin(); rc = sm2_private_key_info_from_der(&kr, &at, &al, &cq, &ql); secret(d, 32); cap_end("privatekeyinfo_from_der_with_attributes", 0, rc);
+		f = fopen("/tmp/leak_ec.pem", "w"); sm2_private_key_to_pem(&key, f); fclose(f);
+		f = fopen("/tmp/leak_ec.pem", "r"); cap_begin(); rc = sm2_private_key_from_pem(&kr, f); secret(d, 32); cap_end("ecprivatekey_from_pem", 0, rc); fclose(f);
+		// the wrong reader for the file (label mismatch) and a truncated file
+		f = fopen("/tmp/leak_ec.pem", "r"); cap_begin(); rc = sm2_private_key_info_from_pem(&kr, f); secret(d, 32); cap_end("privatekeyinfo_from_pem_wrong_label", 0, rc); fclose(f);
+		{ FILE *in = fopen("/tmp/leak_plain.pem", "r"); char b2[2048]; size_t n = fread(b2, 1, sizeof b2, in); fclose(in); f = fopen("/tmp/leak_trunc.pem", "w"); fwrite(b2, 1, n * 2 / 3, f); fclose(f); }
+		f = fopen("/tmp/leak_trunc.pem", "r"); cap_begin(); rc = sm2_private_key_info_from_pem(&kr, f); secret(d, 32); cap_end("privatekeyinfo_from_pem_truncated", 0, rc); fclose(f);
+		unlink("/tmp/leak_plain.pem"); unlink("/tmp/leak_attrs.pem"); unlink("/tmp/leak_ec.pem"); unlink("/tmp/leak_trunc.pem");
+	}
 	// ---- loading credentials into a TLS context from files: certificates, password-protected keys; right and wrong passwords, a damaged key file, a key that does not
 	// match its certificate -- passwords and scalars stay off fd 1/2 on every branch ----
 	{
